@@ -227,6 +227,8 @@ def random_config(rng):
         cfg['objects'] = dict((f'n{i}', o) for i, o in enumerate(objs)) if rng.random() < 0.4 else list(objs)
         cfg['check_on_set'] = rng.random() < 0.85
         extra += list(objs) + [[o] for o in objs] + [objs[:2], [objs[0], 'zz'], 1.0, [1.0], 'zz']
+        # (allow_None is about the value as a whole: None as an ITEM is an object like any other)
+        extra += [[None], [objs[0], None]]
         if isinstance(cfg['objects'], dict):
             # (the NAME of an object is not one of the objects)
             extra += ['n0', ['n0'], 'n1']
